@@ -479,7 +479,9 @@ class Tree(object):
                     del self._node_indices[node_id]
                     del self._node_indices_rev[curr_idx]
 
-            indices_to_remove = list(rx.descendants(self._graph, sub_root_idx)) + [sub_root_idx]
+            # rx.descendants returns a set whose iteration order differs between processes; the removal order
+            # decides which graph indices later nodes reuse, so fix it
+            indices_to_remove = sorted(rx.descendants(self._graph, sub_root_idx)) + [sub_root_idx]
             self._graph.remove_nodes_from(indices_to_remove)
             self._update_path_to_root(parent_node.node_id)
 
